@@ -4,7 +4,7 @@
 # Usage of the demo: every demo has demo/run.sh taking TREE=<path>.
 set -u
 ID=$1
-OUT=/tmp/mut_${ID}_out
+OUT=${OUT:-/tmp/mut_${ID}_out}
 WT=/tmp/cm_${ID}
 export CARGO_TARGET_DIR=/tmp/cm_target_${ID}
 git -C /repo worktree remove --force $WT 2>/dev/null
